@@ -88,6 +88,16 @@
                 self.svcs@.contains_key(k) && self.svcs@[k].subscriptions@.contains(c) ==> self.conns@.contains_key(c)
     }
 
+    // (CALLERS) a pending call that has not been aborted is known to its caller (while connected) under the caller's own
+    //           serial, and it refers to a live object
+    spec fn inv_callers(&self) -> bool {
+        forall|s: u32| #![trigger self.calls()[s]] self.calls().contains_key(s) && !self.calls()[s].aborted
+            && self.conns@.contains_key(self.calls()[s].caller_conn_id) ==> {
+                &&& self.conns@[self.calls()[s].caller_conn_id].calls@.contains_key(self.calls()[s].caller_serial)
+                &&& self.conns@[self.calls()[s].caller_conn_id].calls@[self.calls()[s].caller_serial].0 == s
+            }
+    }
+
     // every connection's own representation invariant
     spec fn inv_conns(&self) -> bool {
         forall|k: ConnectionId| #![trigger self.conns@[k]] self.conns@.contains_key(k) ==> self.conns@[k].inv()
@@ -97,7 +107,7 @@
     // disconnected owner. That is the state inside remove_object / shutdown_connection.
     spec fn reg_winv(&self) -> bool {
         &&& self.inv_objects() &&& self.inv_services() &&& self.inv_object_services() &&& self.inv_ownership()
-        &&& self.inv_calls() &&& self.inv_conns() &&& self.inv_subs()
+        &&& self.inv_calls() &&& self.inv_callers() &&& self.inv_conns() &&& self.inv_subs()
     }
 
     // service cookies whose object does not exist (any more)
